@@ -15,6 +15,7 @@ HIST_SRC = ["histmon.c", "layoutmon.c", "refcodec.c", "dbh.c", "model.c", "vh.c"
 HARNESSES = {
     # name: (sources, wrap list)
     "histmon": (HIST_SRC, build.WRAP_IO),
+    "racemon": (["racemon.c", "dbh.c", "model.c", "vh.c", "iomon.c"], build.WRAP_IO),
     "concmon": (["concmon.c", "vsched.c", "dbh.c", "model.c", "vh.c", "iomon.c"], build.WRAP_IO + build.WRAP_SCHED),
     "faultmon": (["faultmon.c", "dbh.c", "model.c", "vh.c", "iomon.c"], build.WRAP_IO),
     "dbtool": (["dbtool.c", "dbh.c", "model.c", "vh.c", "iomon.c"], build.WRAP_IO),
@@ -556,3 +557,92 @@ def c04(ctx):
         floors=dict(images=(agg.n("images"), 1500), large_batches=(agg.n("large_batches"), 20),
                     views=(agg.n("views_overlapping_a_write"), 100), torn=(agg.n("torn_images"), 100)),
         assumptions=CRASH_ASSUME + ["views are checked per writer (thread-owned key sets)"])
+
+
+
+# ---------------------------------------------------------------------------
+# C10: sanitizers on native multi-thread stress
+
+HARNESS_FLAVOURS["racemon"] = ("tsan", "asan")
+
+import glob
+import re
+
+_tsan_frame = re.compile(r"#\d+\s+(\S+)\s")
+
+
+def parse_tsan_logs(pattern):
+    """Return list of (key, text) for every ThreadSanitizer report block found in the log files."""
+    out = []
+    for path in glob.glob(pattern):
+        try:
+            txt = open(path, errors="replace").read()
+        except OSError:
+            continue
+        for block in txt.split("=================="):
+            m = re.search(r"WARNING: ThreadSanitizer: ([^\n(]+)", block)
+            if not m:
+                continue
+            kind = m.group(1).strip().replace(" ", "-")
+            # first lcdb frame of each stack section
+            tops = []
+            for sec in re.split(r"\n\s*\n", block):
+                fr = [f for f in _tsan_frame.findall(sec) if f.startswith(("ldb_", "rb_", "snappy", "worker_thread"))]
+                if fr:
+                    tops.append(fr[0])
+            tops = sorted(set(tops[:2]))
+            out.append(("tsan:%s@%s" % (kind, "|".join(tops)), block.strip()[:3500]))
+    return out
+
+
+@register("C10")
+def c10(ctx):
+    """One handle shared by threads without data races (ThreadSanitizer + ASan/UBSan on native stress)."""
+    if ctx.replay:
+        return do_replay(ctx)
+    jobs = []
+    if ctx.quick:
+        plan = [("tsan", k, 6 + k % 3, 2500) for k in range(14)] + [("asan", 100 + k, 6, 4000) for k in range(4)]
+    else:
+        plan = [("tsan", k, 6 + k % 3, 6000) for k in range(300)] + [("asan", 1000 + k, 8, 8000) for k in range(60)]
+        try:
+            build.build_lib("ctsan")
+            plan += [("ctsan", 5000 + k, 6 + k % 3, 6000) for k in range(120)]
+        except build.BuildError:
+            pass
+    logdir = os.path.join(ctx.scratch, "sanlogs")
+    os.makedirs(logdir, exist_ok=True)
+    for flavour, case, threads, ops in plan:
+        d = os.path.join(ctx.scratch, "race-%s" % flavour)
+        env = {}
+        if flavour in ("tsan", "ctsan"):
+            env["TSAN_OPTIONS"] = ("halt_on_error=0:second_deadlock_stack=1:report_signal_unsafe=0:history_size=4:"
+                                   "log_path=%s/tsan-%s-%d" % (logdir, flavour, case))
+        jobs.append(hjob("racemon", flavour, ["--seed", ctx.seed, "--case", case, "--threads", threads, "--ops", ops,
+                                               "--dir", d], "%s/%d" % (flavour, case), timeout=3000, env=env))
+    agg = Agg().add(runner.run_jobs(jobs))
+    reports = parse_tsan_logs(os.path.join(logdir, "tsan-*"))
+    extra_v = []
+    seen = {}
+    for key, text in reports:
+        seen[key] = seen.get(key, 0) + 1
+        if seen[key] == 1:
+            extra_v.append(dict(prop="C10", key=key, msg=text, ctx="ThreadSanitizer report", job=jobs[0]))
+    extras = dict(processes=agg.jobs, api_calls=agg.n("api_calls"), memtable_flushes=agg.n("memtable_flushes"),
+                  compactions=agg.n("compactions"), table_deletions=agg.n("table_deletions"),
+                  overlap_observations=agg.n("overlap_observations"),
+                  thread_sanitizer_report_blocks=len(reports), distinct_thread_sanitizer_reports=len(seen),
+                  flavours=sorted(set(p[0] for p in plan)))
+    return runner.finish(
+        "C10", "exploration", ctx.tier, ctx.seed, ctx.t0, agg,
+        rule="6..8 native threads on one handle (put/del/write/get/has/iterate/snapshot/release/compact/compact_range/"
+             "flush/property/approximate_sizes/backup) + a second handle sharing the block cache, minimum table cache, "
+             "64 KiB write buffer, seed-driven delays at libc I/O calls and inside skiplist inserts; oracle = "
+             "ThreadSanitizer report blocks counted from log files (gcc runtime; clang runtime in thorough) and "
+             "ASan/UBSan aborts; distinct = API pairs observed to overlap in time",
+        evaluations=agg.n("api_calls"), distinct_nontrivial=agg.d("overlapping_api_pairs"), extras=extras,
+        extra_violations=extra_v,
+        floors=dict(api_calls=(agg.n("api_calls"), 100000), pairs=(agg.d("overlapping_api_pairs"), 40),
+                    flushes=(agg.n("memtable_flushes"), 50)),
+        assumptions=["a clean sanitizer run = no race among the access pairs actually executed; GNU atomics are modelled "
+                     "exactly by TSan; the harness logs through its own callback (no stdio locking noise)"])
